@@ -4,6 +4,8 @@ action) the set of paths through its C action, each an ordered list of effects
 value, return code).  Built by path-sensitive constant propagation (sym.py)
 over the IR of cfg_yylex with the hand-written helpers inlined.
 """
+import os
+
 from . import sym, cfg as _cfg, lexdfa, summaries
 
 HELPERS = ('qbeg', 'qput', 'qend', 'qstr')
@@ -159,6 +161,9 @@ class LexModel(object):
     def __init__(self, st):
         self.stage = st
         self.mod = st.lexer
+        if not os.path.exists(st.path('lexer_full.c')):
+            from . import stage as _stage
+            raise _stage.StageError('the scanner automaton cannot be extracted: ' + (st.text('lexer_full.err') if os.path.exists(st.path('lexer_full.err')) else 'no full tables'))
         self.dfa = lexdfa.DFA(st.text('lexer_full.c'), st.text('lexer.c'), st.text('lexer.l'))
         fn = self.mod.funcs.get('cfg_yylex')
         if fn is None:
